@@ -114,7 +114,11 @@ def evalOp (op : String) (n : Nat) (ss : List Str) (ns : List Nat) (st : Stack)
     | some (u, msg) => annot (.user u msg)
     | none => .bad "uwrap"
   | "mark" =>
+    -- with hostile strings the harness sends the reference's real Error() text (an input,
+    -- like the results of redact.Sprintf): the transport model's `text` is only faithful on
+    -- regular strings
     match cMark Full n k0 (ks.getD 1 none) with
+    | some (some (.wrap id (.withMark m tys) c)) => .ok (some (.wrap id (.withMark (if ss = [] then m else s0) tys) c))
     | some r => .ok r
     | none => .panic
   | "secondary" => .ok (cWithSecondary n k0 (ks.getD 1 none))
